@@ -342,6 +342,12 @@ def r3(R, repo):
     if isinstance(e, ast.Call) and astu.call_name(e) == 'len' and astu.src(e.args[0]) == p0:
       return val == 'nonempty'
     raise AnalysisError('_prepare_freeze guard `%s` is outside the analysable fragment' % astu.src(e))
+  # `type(xs) is dict` instead of isinstance: dict *subclasses* (OrderedDict, defaultdict, user mappings derived from dict) are then
+  # returned as they are and stay aliased to the caller's object
+  exact_t = [n for n in cc.nodes if n.kind == 'if' and any(isinstance(y, ast.Compare) and isinstance(y.left, ast.Call) and astu.call_name(y.left) == 'type' and astu.src(y.comparators[0]) == 'dict' for y in ast.walk(n.ast))]
+  if exact_t and not dt:
+    R.fail(key_of(pf, 'rebuilds every nested dict; returns only non-dicts as is'), (pf, exact_t[0].stmt), '`%s` recognises only exact dicts: a nested OrderedDict / defaultdict / other dict subclass is stored by reference, so mutating the source later changes the FrozenDict' % astu.short(exact_t[0].ast))
+    return
   ok = ok and len(rets) == 1 and len(dt) == 1
   if ok:
     lab = 'T' if cc.edge_guarded(rets[0], dt[0], 'T') else ('F' if cc.edge_guarded(rets[0], dt[0], 'F') else None)
